@@ -141,12 +141,13 @@ namespace avel {
                 reinterpret_cast<char*>(aligned_allocation) -
                 reinterpret_cast<char*>(unaligned_allocation);
 
-            auto* offset_location =
-                reinterpret_cast<std::size_t*>(
-                    reinterpret_cast<char*>(aligned_allocation) + elements_size
-                );
-
-            new(offset_location) std::size_t{alignment_offset};
+            // elements_size need not be a multiple of alignof(std::size_t): store the offset bytewise,
+            // exactly as deallocate() reads it back
+            std::memcpy(
+                reinterpret_cast<char*>(aligned_allocation) + elements_size,
+                &alignment_offset,
+                sizeof(std::size_t)
+            );
 
             return reinterpret_cast<pointer>(aligned_allocation);
 
